@@ -3,6 +3,8 @@ From Coq Require Import List Bool Lia.
 From Bq Require Import GradDescent.
 Import ListNotations.
 
+From BqGen Require Import GenGradDescent.
+
 Section Facts.
   Variable T : Type.
   Variables (add sub mul div : T -> T -> T) (abs : T -> T) (ltb leb eqb : T -> T -> bool).
@@ -13,9 +15,9 @@ Section Facts.
   Hypothesis leb_trans : forall a b c, leb a b = true -> leb b c = true -> leb a c = true.
   Hypothesis leb_total : forall a b, leb a b = true \/ leb b a = true.
 
-  Notation pmin := (pmin T ltb).
-  Notation pmax := (pmax T ltb).
-  Notation gd_loop := (gd_loop T add sub mul div abs ltb eqb two eps).
+  Notation pmin := (GradDescent.pmin T add sub mul div abs ltb leb eqb two).
+  Notation pmax := (GradDescent.pmax T add sub mul div abs ltb leb eqb two).
+  Notation gd_loop := (gd_loop T add sub mul div abs ltb leb eqb two eps).
   Notation gradient_descent := (gradient_descent T add sub mul div abs ltb leb eqb two eps zero).
 
   Definition within (b0 b1 x : T) : Prop := leb b0 x = true /\ leb x b1 = true.
@@ -23,7 +25,8 @@ Section Facts.
   (* clamping lands inside the bounds *)
   Lemma clamp_within b0 b1 x : leb b0 b1 = true -> within b0 b1 (pmax (pmin x b1) b0).
   Proof.
-    intro Hb. unfold GradDescent.pmax, GradDescent.pmin, within. rewrite !ltb_leb.
+    intro Hb. unfold GradDescent.pmax, GradDescent.pmin, GenGradDescent.pmax, GenGradDescent.pmin, within.
+    cbn [o_ltb GradDescent.ops]. rewrite !ltb_leb.
     destruct (leb x b1) eqn:E1; cbn [negb].
     - destruct (leb b0 x) eqn:E2; cbn [negb]; [split; assumption|]. split; [apply leb_refl|exact Hb].
     - destruct (leb b0 b1) eqn:E2; cbn [negb]; [split; [exact E2|apply leb_refl]|discriminate].
@@ -48,9 +51,9 @@ Section Facts.
   Proof.
     induction n as [|n IH]; intros cur vel hist cur' hist' Hb Hin H; cbn [GradDescent.gd_loop] in H; [discriminate|].
     destruct bounds as [[b0 b1]|].
-    - match type of H with context [pmax (pmin ?x b1) b0] => set (nx := pmax (pmin x b1) b0) in * end.
-      assert (Hnx : within b0 b1 nx) by (apply clamp_within; exact Hb).
-      destruct (eqb nx b0 || eqb nx b1).
+    - match type of H with context [gen_gd_clip ?o ?x b0 b1] => set (nx := gen_gd_clip o x b0 b1) in * end.
+      assert (Hnx : within b0 b1 nx) by (unfold nx, gen_gd_clip; apply clamp_within; exact Hb).
+      match type of H with (if ?c then _ else _) = _ => destruct c end.
       + inversion H; subst. split; [constructor; assumption|]. split; [eexists; reflexivity|].
         apply last_push.
       + match type of H with (if ?c then _ else _) = _ => destruct c end.
@@ -78,11 +81,12 @@ Section Facts.
     cost = f optimal.
   Proof.
     intros Hb H. unfold GradDescent.gradient_descent in H.
-    destruct (negb (match bounds with Some (b0, b1) => leb b0 x0 && leb x0 b1 | None => true end)) eqn:Ein; [discriminate|].
+    match type of H with context [negb ?c] => destruct (negb c) eqn:Ein end; [discriminate|].
     destruct (gd_loop max_iter f bounds lr tol mom x0 zero [x0]) as [[cur h]|] eqn:El; [|discriminate].
     inversion H; subst. clear H.
     assert (Hin0 : all_within bounds [x0]).
-    { destruct bounds as [[b0 b1]|]; [|exact I]. apply negb_false_iff in Ein. apply andb_true_iff in Ein.
+    { destruct bounds as [[b0 b1]|]; [|exact I]. apply negb_false_iff in Ein. unfold gen_gd_start_ok in Ein.
+      cbn [o_leb GradDescent.ops] in Ein. apply andb_true_iff in Ein.
       constructor; [split; tauto|constructor]. }
     destruct (gd_loop_inv _ _ _ _ _ _ _ _ _ _ _ Hb Hin0 El) as [H1 [[rest H2] H3]]. subst h. cbn [last] in H3.
     assert (Hlast : last (optimal :: rest) optimal = x0) by exact H3.
@@ -103,12 +107,17 @@ Section Facts.
   Theorem gd_out_of_bounds f x0 b0 b1 lr max_iter tol mom :
     leb b0 x0 && leb x0 b1 = false ->
     gradient_descent f x0 (Some (b0, b1)) lr max_iter tol mom = GDValueError.
-  Proof. intro H. unfold GradDescent.gradient_descent. rewrite H. reflexivity. Qed.
+  Proof. intro H. unfold GradDescent.gradient_descent, gen_gd_start_ok. cbn [o_leb GradDescent.ops]. rewrite H. reflexivity. Qed.
 
   (* failure to converge within max_iter is an error, not a value *)
   Theorem gd_not_converged f x0 bounds lr max_iter tol mom :
     gd_loop max_iter f bounds lr tol mom x0 zero [x0] = None ->
     (match bounds with Some (b0, b1) => leb b0 x0 && leb x0 b1 | None => true end) = true ->
     gradient_descent f x0 bounds lr max_iter tol mom = GDRuntimeError.
-  Proof. intros H Hb. unfold GradDescent.gradient_descent. rewrite Hb, H. reflexivity. Qed.
+  Proof.
+    intros H Hb. unfold GradDescent.gradient_descent.
+    assert (E : match bounds with Some (b0, b1) => gen_gd_start_ok (GradDescent.ops T add sub mul div abs ltb leb eqb two) x0 b0 b1 | None => true end = true).
+    { destruct bounds as [[b0 b1]|]; [|reflexivity]. unfold gen_gd_start_ok. cbn [o_leb GradDescent.ops]. exact Hb. }
+    rewrite E, H. reflexivity.
+  Qed.
 End Facts.
